@@ -136,14 +136,6 @@ example : (Frame.mk 0x33 (List.replicate 21 0x1A)).WF := by decide
 example : (encode [Frame.mk 0x33 (List.replicate 21 0x1A), Frame.mk 0x31 [1,2,3,4,5,6,7,8,9]]).length = 55 := by
   decide
 
-/-- the frame on which the unrepaired reader failed (two adjacent 0x1A data bytes, i.e. four on
-    the wire) followed by a short frame -/
-def witness : List Frame :=
-  [⟨0x33, [0x1A, 0x1A, 0x42, 0x43, 0x44, 0x45, 0x46, 0x47, 0x48, 0x49, 0x4a, 0x4b, 0x4c, 0x4d, 0x4e, 0x4f,
-           0x50, 0x51, 0x52, 0x53, 0x54]⟩,
-   ⟨0x32, [1, 2, 3, 4, 5, 6, 7, 8, 9, 10, 11, 12, 13, 14]⟩,
-   ⟨0x32, [1, 2, 3, 4, 5, 6, 7, 8, 9, 10, 11, 12, 13, 14]⟩]
-
 example : ∀ f ∈ witness, f.WF := by decide
 
 /-- Regression witness: the stream of `witness`, first read = 23 bytes (inside the escaped form of
